@@ -220,7 +220,7 @@ class VerusResult:
 RESULT_RE = re.compile(r"verification results:: (\d+) verified, (\d+) errors")
 
 
-def run_verus(path, mode, rlimit=None, timeout=3000):
+def run_verus(path, mode, rlimit=None, timeout=3000, nl_timeout_ms=None):
     cmd = ["verus", path, "--error-format=json", "--multiple-errors", "10" if (mode == "root" or mode.startswith("ex")) else "3", "--time"]
     if mode == "root":
         cmd += ["--verify-root"]
@@ -230,7 +230,7 @@ def run_verus(path, mode, rlimit=None, timeout=3000):
         # flat non-linear lemma modules: macro_finder inlines the spec functions for nlsat; hard per-query timeout;
         # algebraic numbers in counter-models printed as decimals (the AIR model parser panics on root-obj syntax)
         cmd += ["--verify-only-module", mode, "--smt-option", "smt.macro_finder=true",
-                "--smt-option", "timeout=%d" % NL_TIMEOUT_MS, "--smt-option", "pp.decimal=true"]
+                "--smt-option", "timeout=%d" % (nl_timeout_ms or NL_TIMEOUT_MS), "--smt-option", "pp.decimal=true"]
     if rlimit:
         cmd += ["--rlimit", str(rlimit)]
     r = VerusResult()
@@ -314,12 +314,37 @@ def run_many(jobs, workers=None):
     return res
 
 
+def needs_retry(r):
+    """a run that ended in a resource limit / time-out somewhere (load-dependent): worth one calmer second attempt"""
+    return bool(r.fatal and "timed out" in r.fatal) or any(UNDECIDED_PAT.search(d[0]) for d in r.diags)
+
+
+def retry_undecided(jobs, res, log=None):
+    """re-run, one at a time and with four times the resources, every module whose first run hit a resource limit.
+    Only the undecided outcome can change: a refuted obligation is refuted again."""
+    n = 0
+    for j in jobs:
+        r = res[j[0]]
+        mode = j[2]
+        if r is None or mode == "canary" or not needs_retry(r):
+            continue
+        r2 = run_verus(j[1], mode, rlimit=40, nl_timeout_ms=4 * NL_TIMEOUT_MS)
+        r2.wall += r.wall
+        r2.cmd = r2.cmd + "   # second attempt after a resource limit in the first"
+        res[j[0]] = r2
+        n += 1
+    return n
+
+
 UNDECIDED_PAT = re.compile(r"rlimit|resource limit|timed? ?out|could not prove termination", re.I)
 
 
 class Obligation:
     def __init__(self, unit, kind, name, status, detail="", props=(), what=""):
         self.unit, self.kind, self.name, self.status, self.detail, self.props, self.what = unit, kind, name, status, detail, list(props), what
+        # gated: the failed obligation is a proof script tied to the operation sequence of the body (composition lemma, or a
+        # definedness obligation discharged through a ghost hint); it becomes a violation only together with a failing input
+        self.gated = False
 
     def key(self):
         return "%s/%s/%s" % (self.unit, self.kind, self.name)
@@ -364,6 +389,7 @@ def classify(uf, root_res, nl_res, can_res):
                     obs.append(Obligation(uf.unit, "exec-mirror", it.name, "undecided", rendered, exec_props(it.info)))
                 elif "precondition" in msg:
                     obs.append(Obligation(uf.unit, "definedness", it.name, "failed", rendered, exec_props(it.info), "a partial operation is evaluated outside its domain"))
+                    obs[-1].gated = bool(it.info.get("hinted"))
                 elif "overflow" in msg:
                     obs.append(Obligation(uf.unit, "overflow", it.name, "failed", rendered, exec_props(it.info), "integer arithmetic may overflow"))
                 else:
@@ -376,6 +402,7 @@ def classify(uf, root_res, nl_res, can_res):
             for msg, labelled, rendered in fl:
                 st = "undecided" if UNDECIDED_PAT.search(msg) else "failed"
                 obs.append(Obligation(uf.unit, "lemma", it.name, st, rendered, it.info.prop, it.info.what))
+                obs[-1].gated = bool(getattr(it.info, "structural", False))
     # canaries
     if can_res is not None:
         if can_res.fatal:
